@@ -171,7 +171,7 @@ pub fn fmtcmp(req: &Value) -> Value {
             } else {
                 r.insert("same".into(), json!(false));
                 r.insert("first_diff".into(), json!(first_diff(&d1, &d2)));
-                if d1.len() + d2.len() < 400_000 {
+                if d1.len() + d2.len() < 8_000_000 {
                     r.insert("d1".into(), json!(d1));
                     r.insert("d2".into(), json!(d2));
                 }
